@@ -1,6 +1,6 @@
 SPECIFICATION Spec
 CONSTANTS LBits = 4
-  Vals = {0,1,2,3,7,8,9,10,14,15,16,17,31,32,33,35,36,99,100,127,128,129,255,256,257,999,1000,4095,4096,4097,9999,10000,32767,32768,65535,65536,65537,99999,1048575,1048576}
+  Vals = {0,1,2,3,9,10,15,16,17,35,36,99,255,256,257,1000,4095,4096,9999,10000,65535,65536,65537,99999,1048575}
   Smalls = {0,1,2,3,4,5,7,8,9,10,12,15,16,17,36,100,10000}
   Radices = {2,8,10,16,36}
 INVARIANTS RoundTrip CmpOK AddOK SubOK MulOK ShiftOK BitsOK DigitsOK Pow10OK MulBigOK
